@@ -205,6 +205,8 @@ def _prio(env, com, kind, step):
         return env.int("prio%d" % step, 0, 30)
     if kind == "const":
         return env.choice("prio%d" % step, [com.MSG_MGT, com.MSG_ALGO, None, com.MSG_VALUE])
+    if kind == "sym_hi":     # above MSG_MGT: spares the 'msg_type != MSG_MGT' fork of every post
+        return env.int("prio%d" % step, 11, 30)
     if kind == "two":
         return env.choice("prio%d" % step, [com.MSG_ALGO, com.MSG_MGT])
     if kind == "mixed":
@@ -309,28 +311,28 @@ class _Stop(Exception):
 
 
 def _shapes_messaging(tier):
-    # a symbolic path costs ~10 ms, a concrete one ~0.2 ms
+    # cost on an idle core: a symbolic path ~5-10 ms, a concrete one ~0.2 ms
     s = [
-        dict(n_ops=3, prio="sym"),
-        dict(n_ops=4, prio="sym", senders=["s_loc"]),
-        dict(n_ops=4, prio="sym", senders=["r_snd"], late=["b_late"]),
-        dict(n_ops=3, prio="const"),
-        dict(n_ops=4, prio="const", senders=["r_snd"]),
-        dict(n_ops=5, prio="two", senders=["s_loc"]),
-        dict(n_ops=3, prio="mixed", late=["b_late"]),
+        dict(n_ops=3, prio="sym"),                                            # ~3 800 paths
+        dict(n_ops=4, prio="sym_hi", senders=["s_loc"]),                      # ~2 400
+        dict(n_ops=3, prio="mixed", senders=["r_snd"], late=["b_late"]),      # ~2 600
+        dict(n_ops=3, prio="const"),                                          # ~6 700 (concrete)
+        dict(n_ops=4, prio="const", senders=["r_snd"]),                       # ~13 400 (concrete)
+        dict(n_ops=5, prio="two", senders=["s_loc"]),                         # ~11 900 (concrete)
+        dict(n_ops=5, prio="two", senders=["r_snd"], late=["b_late"]),
     ]
     if tier == "thorough":
         s += [
             dict(n_ops=4, prio="sym"),
-            dict(n_ops=5, prio="sym", senders=["s_loc"]),
-            dict(n_ops=5, prio="sym", senders=["r_snd"], late=["b_late"]),
+            dict(n_ops=5, prio="sym_hi", senders=["s_loc"]),
+            dict(n_ops=4, prio="sym", senders=["r_snd"], late=["b_late"]),
             dict(n_ops=4, prio="const"),
             dict(n_ops=5, prio="two"),
             dict(n_ops=6, prio="two", senders=["r_snd"]),
             dict(n_ops=4, prio="mixed", senders=["s_loc"], late=["b_late"]),
             dict(n_ops=3, prio="sym", late=["e_late", "b_late"]),
             dict(n_ops=5, prio="two", late=["e_late", "b_late"], senders=["s_loc"]),
-            dict(n_ops=4, prio="sym", senders=["s_loc"], unregister=True),
+            dict(n_ops=4, prio="sym_hi", senders=["s_loc"], unregister=True),
             dict(n_ops=6, prio="two", senders=["s_loc"], unregister=True),
         ]
     return s
@@ -352,7 +354,7 @@ Contract(
                  "'msg_queue_count += 1' and 'put', or inside _on_computation_registration) is NOT decided by this technique",
                  "C18: what is posted, or released by a registration, after Messaging.shutdown() may be dropped (documented behaviour); "
                  "it must still not be delivered twice"],
-    budget=dict(quick=dict(max_paths=400000, timeout_s=300), thorough=dict(max_paths=4000000, timeout_s=3000)),
+    budget=dict(quick=dict(max_paths=400000, timeout_s=560), thorough=dict(max_paths=4000000, timeout_s=3400)),
     desc="every history of <= 5 post/register/next_msg/shutdown operations on a real Messaging: exactly once, lowest type first, FIFO per sender, held until registration, drained after shutdown",
 )
 
@@ -589,18 +591,20 @@ def h_agent_loop(env):
 
 def _shapes_agent(tier):
     s = [
-        dict(n_ops=3, prio="const"),
-        dict(n_ops=4, prio="two", senders=["s_loc"]),
-        dict(n_ops=4, prio="two", senders=["r_snd"], late=["b_late"]),
-        dict(n_ops=3, prio="sym", senders=["r_snd"]),
+        dict(n_ops=3, prio="two"),                                            # ~5 500 paths (concrete)
+        dict(n_ops=3, prio="const", senders=["s_loc"]),                       # ~5 500
+        dict(n_ops=4, prio="two", senders=["s_loc"]),                         # ~10 500
+        dict(n_ops=4, prio="two", senders=["r_snd"], late=["b_late"]),        # ~10 500
+        dict(n_ops=3, prio="sym_hi", senders=["r_snd"]),                      # ~400 (symbolic)
     ]
     if tier == "thorough":
         s += [
             dict(n_ops=4, prio="two"),
             dict(n_ops=5, prio="two", senders=["s_loc"]),
+            dict(n_ops=3, prio="const"),
             dict(n_ops=4, prio="const", senders=["r_snd"]),
             dict(n_ops=3, prio="sym"),
-            dict(n_ops=4, prio="sym", senders=["s_loc"]),
+            dict(n_ops=4, prio="sym_hi", senders=["s_loc"]),
             dict(n_ops=4, prio="two", late=["e_late", "b_late"], senders=["s_loc"]),
         ]
     return s
@@ -627,6 +631,6 @@ Contract(
                  "effect between two loop iterations or before the loop starts; finer preemption points are NOT decided",
                  "C18: destinations are started computations (messages to a computation that is not started or is paused are "
                  "buffered by the computation itself: property C19)"],
-    budget=dict(quick=dict(max_paths=400000, timeout_s=300), thorough=dict(max_paths=4000000, timeout_s=3000)),
+    budget=dict(quick=dict(max_paths=400000, timeout_s=560), thorough=dict(max_paths=4000000, timeout_s=3400)),
     desc="real Agent loop: every history of <= 4 post/add_computation/clean_shutdown operations placed before the start or between loop iterations; each queued message handled once by its destination, by type then FIFO, all of them before the loop ends",
 )
